@@ -142,18 +142,31 @@ pub fn run(_ctx: &Ctx) -> Report {
             r.check("rank_order", &pair, ok, || p.unwrap_or_else(|| format!("{:?}", rank.cmp(other))));
         }
     }
+    // Characters outside the 13 + 4 notation letters: the statement demands their rejection at the card level
+    // (checked above for every one- and two-character ASCII text). What the rank/suit converters answer for
+    // them on their own is recorded, not judged; a panic, however, is never acceptable.
     for a in 0..=0x2ffu32 {
         if let Some(ch) = char::from_u32(a) {
-            let expected = RANK_CHARS.iter().position(|c| *c == ch).map(|i| RANKS[i]);
-            let got = catch(|| Rank::try_from(ch).ok());
-            r.check("char_to_rank_total", &format!("{:04x}", a), got == Ok(expected), || format!("{:?}", got));
-            let from_str = catch(|| ch.to_string().parse::<Rank>().ok());
-            r.check("str_to_rank_total", &format!("{:04x}", a), from_str == Ok(expected), || format!("{:?}", from_str));
-            let expected_s = SUIT_CHARS.iter().position(|c| *c == ch).map(|i| SUITS[i]);
-            let got_s = catch(|| Suit::try_from(ch).ok());
-            r.check("char_to_suit_total", &format!("{:04x}", a), got_s == Ok(expected_s), || format!("{:?}", got_s));
-            let from_str_s = catch(|| ch.to_string().parse::<Suit>().ok());
-            r.check("str_to_suit_total", &format!("{:04x}", a), from_str_s == Ok(expected_s), || format!("{:?}", from_str_s));
+            let is_rank = RANK_CHARS.contains(&ch);
+            let is_suit = SUIT_CHARS.contains(&ch);
+            for (name, res) in [
+                ("char_to_rank_no_panic", catch(|| Rank::try_from(ch).is_ok())),
+                ("str_to_rank_no_panic", catch(|| ch.to_string().parse::<Rank>().is_ok())),
+            ] {
+                r.check(name, &format!("{:04x}", a), res.is_ok(), || format!("{:?}", res));
+                if res == Ok(true) && !is_rank {
+                    r.report.count("foreign_characters_accepted_as_rank", 1);
+                }
+            }
+            for (name, res) in [
+                ("char_to_suit_no_panic", catch(|| Suit::try_from(ch).is_ok())),
+                ("str_to_suit_no_panic", catch(|| ch.to_string().parse::<Suit>().is_ok())),
+            ] {
+                r.check(name, &format!("{:04x}", a), res.is_ok(), || format!("{:?}", res));
+                if res == Ok(true) && !is_suit {
+                    r.report.count("foreign_characters_accepted_as_suit", 1);
+                }
+            }
         }
     }
 
